@@ -1,1 +1,383 @@
-/- property theorems for C04 (filled in below) -/
+/-
+C04 — a composite object behaves exactly like an array of its unit objects.
+Only property theorems and non-vacuity examples; helper lemmas are in `GT.Lemmas.ND`,
+`GT.Lemmas.Obj`.  Models: `GT.Model.ND` (numpy fragment), `GT.Model.Obj`
+(`utils.matrix_product` as the literal composition of numpy primitives), `GT.Model.Units`
+(unit views).  Every statement holds for ALL outer (composite) ranks and sizes.
+-/
+import GT.Lemmas.Obj
+import GT.Lemmas.Units
+import GT.Lemmas.Vectorised
+import GT.Model.Units
+import Mathlib.Algebra.BigOperators.Fin
+import Mathlib.Algebra.Field.Rat
+import Mathlib.Data.Matrix.Mul
+
+set_option linter.unusedSectionVars false
+set_option linter.unusedSimpArgs false
+set_option linter.unusedVariables false
+
+open Finset BigOperators
+
+namespace GT.C04
+open GT GT.Act GT.Act.ND
+
+variable {K : Type} [Field K] [Inhabited K]
+
+/-! ## result shapes: elementwise = numpy broadcasting of the composite shapes, pairwise =
+object's axes then transformation's axes, pairwise_reversed the other way round -/
+
+theorem outerShape_elementwise (o₁ o₂ : List ℕ) :
+    outerShape .elementwise o₁ o₂ = bcastShape o₁ o₂ := rfl
+theorem outerShape_pairwise (o₁ o₂ : List ℕ) : outerShape .pairwise o₁ o₂ = some (o₁ ++ o₂) := rfl
+theorem outerShape_pairwiseReversed (o₁ o₂ : List ℕ) :
+    outerShape .pairwiseReversed o₁ o₂ = some (o₂ ++ o₁) := rfl
+
+/-- shape law, unit ranks (1,2) (points × transformations), every mode, every rank -/
+theorem matrixProduct_shape_12 (mode : Bcast) (a₁ a₂ : ND K) {o₁ o₂ O : List ℕ} {n m : ℕ}
+    (h₁ : a₁.shape = o₁ ++ [n]) (h₂ : a₂.shape = o₂ ++ [n, m])
+    (hO : outerShape mode o₁ o₂ = some O) :
+    ∃ c, matrixProduct a₁ a₂ 1 2 mode = .ok c ∧ c.shape = O ++ [m] := by
+  obtain ⟨c, hc, hs, _⟩ := mp12 mode a₁ a₂ h₁ h₂ hO
+  exact ⟨c, hc, hs⟩
+
+/-- shape law, unit ranks (2,2) (pairs/segments/polygons/transformations × transformations) -/
+theorem matrixProduct_shape_22 (mode : Bcast) (a₁ a₂ : ND K) {o₁ o₂ O : List ℕ} {p n m : ℕ}
+    (h₁ : a₁.shape = o₁ ++ [p, n]) (h₂ : a₂.shape = o₂ ++ [n, m])
+    (hO : outerShape mode o₁ o₂ = some O) :
+    ∃ c, matrixProduct a₁ a₂ 2 2 mode = .ok c ∧ c.shape = O ++ [p, m] := by
+  obtain ⟨c, hc, hs, _⟩ := mp22 mode a₁ a₂ h₁ h₂ hO
+  exact ⟨c, hc, hs⟩
+
+/-- shape law, unit ranks (3,2) (polygon edge data × transformations) -/
+theorem matrixProduct_shape_32 (mode : Bcast) (a₁ a₂ : ND K) {o₁ o₂ O : List ℕ} {k p n m : ℕ}
+    (h₁ : a₁.shape = o₁ ++ [k, p, n]) (h₂ : a₂.shape = o₂ ++ [n, m])
+    (hO : outerShape mode o₁ o₂ = some O) :
+    ∃ c, matrixProduct a₁ a₂ 3 2 mode = .ok c ∧ c.shape = O ++ [k, p, m] := by
+  obtain ⟨c, hc, hs, _⟩ := mp32 mode a₁ a₂ h₁ h₂ hO
+  exact ⟨c, hc, hs⟩
+
+/-- elementwise mode refuses (numpy `ValueError`) exactly when the composite shapes do not
+broadcast — here: it succeeds whenever they do (previous theorems) and the model reports
+an error when they do not, for unit ranks (2,2) -/
+theorem matrixProduct_elementwise_refuses (a₁ a₂ : ND K) {o₁ o₂ : List ℕ} {p n m : ℕ}
+    (h₁ : a₁.shape = o₁ ++ [p, n]) (h₂ : a₂.shape = o₂ ++ [n, m])
+    (hO : bcastShape o₁ o₂ = none) :
+    matrixProduct a₁ a₂ 2 2 .elementwise = .error "ValueError" := by
+  unfold matrixProduct
+  simp only [expandUnitAxes_of_le _ (le_refl 2), pairExpand, matmul, h₁, h₂, splitLast2_append,
+    hO, ne_eq, not_true_eq_false, if_false]
+
+/-! ## values: the result at outer index `bix` is the unit product of the units that
+`unitIx1/2` select — in particular entry `[i][j]` of a pairwise product is transformation
+`j` applied to unit `i` -/
+
+/-- all modes at once, unit ranks (1,2): row vector × matrix -/
+theorem matrixProduct_units_12 (mode : Bcast) (a₁ a₂ : ND K) {o₁ o₂ O : List ℕ} {n m : ℕ}
+    (h₁ : a₁.shape = o₁ ++ [n]) (h₂ : a₂.shape = o₂ ++ [n, m])
+    (hO : outerShape mode o₁ o₂ = some O) :
+    ∃ c, matrixProduct a₁ a₂ 1 2 mode = .ok c ∧ c.shape = O ++ [m] ∧
+      ∀ bix, Valid O bix →
+        rowAt c m bix =
+          Matrix.vecMul (rowAt a₁ n (unitIx1 mode o₁ o₂ bix)) (matAt a₂ n m (unitIx2 mode o₁ o₂ bix)) :=
+  mp12_units mode a₁ a₂ h₁ h₂ hO
+
+/-- all modes at once, unit ranks (2,2): matrix × matrix -/
+theorem matrixProduct_units_22 (mode : Bcast) (a₁ a₂ : ND K) {o₁ o₂ O : List ℕ} {p n m : ℕ}
+    (h₁ : a₁.shape = o₁ ++ [p, n]) (h₂ : a₂.shape = o₂ ++ [n, m])
+    (hO : outerShape mode o₁ o₂ = some O) :
+    ∃ c, matrixProduct a₁ a₂ 2 2 mode = .ok c ∧ c.shape = O ++ [p, m] ∧
+      ∀ bix, Valid O bix →
+        matAt c p m bix =
+          matAt a₁ p n (unitIx1 mode o₁ o₂ bix) * matAt a₂ n m (unitIx2 mode o₁ o₂ bix) :=
+  mp22_units mode a₁ a₂ h₁ h₂ hO
+
+/-- all modes at once, unit ranks (3,2): every matrix of the stack × matrix -/
+theorem matrixProduct_units_32 (mode : Bcast) (a₁ a₂ : ND K) {o₁ o₂ O : List ℕ} {k p n m : ℕ}
+    (h₁ : a₁.shape = o₁ ++ [k, p, n]) (h₂ : a₂.shape = o₂ ++ [n, m])
+    (hO : outerShape mode o₁ o₂ = some O) :
+    ∃ c, matrixProduct a₁ a₂ 3 2 mode = .ok c ∧ c.shape = O ++ [k, p, m] ∧
+      ∀ bix, Valid O bix → ∀ v,
+        stackAt c k p m bix v =
+          stackAt a₁ k p n (unitIx1 mode o₁ o₂ bix) v * matAt a₂ n m (unitIx2 mode o₁ o₂ bix) :=
+  mp32_units mode a₁ a₂ h₁ h₂ hO
+
+/-- which units feed which result unit, spelled out per mode -/
+theorem unitIx_pairwise {o₁ o₂ i j : List ℕ} (hi : Valid o₁ i) :
+    unitIx1 .pairwise o₁ o₂ (i ++ j) = i ∧ unitIx2 .pairwise o₁ o₂ (i ++ j) = j := by
+  simp [unitIx1, unitIx2, ← hi.length]
+
+theorem unitIx_pairwiseReversed {o₁ o₂ i j : List ℕ} (hj : Valid o₂ j) :
+    unitIx1 .pairwiseReversed o₁ o₂ (j ++ i) = i ∧ unitIx2 .pairwiseReversed o₁ o₂ (j ++ i) = j := by
+  simp [unitIx1, unitIx2, ← hj.length]
+
+/-- elementwise with equal composite shapes: unit `i` meets unit `i` -/
+theorem unitIx_elementwise_same {o i : List ℕ} (hi : Valid o i) :
+    unitIx1 .elementwise o o i = i ∧ unitIx2 .elementwise o o i = i := by
+  simp [unitIx1, unitIx2, bcIx_self hi]
+
+/-- elementwise against a single unit (`o₂ = []`, one transformation applied to a composite) -/
+theorem unitIx_elementwise_single {o i : List ℕ} (hi : Valid o i) :
+    unitIx1 .elementwise o [] i = i ∧ unitIx2 .elementwise o [] i = [] := by
+  simp [unitIx1, unitIx2, bcIx_self hi]
+
+/-- **pairwise**: the result has the object's axes first, then the transformation's, and
+entry `[i][j]` is transformation `j` applied to unit `i` (points) -/
+theorem matrixProduct_pairwise_12 (a₁ a₂ : ND K) {o₁ o₂ : List ℕ} {n m : ℕ}
+    (h₁ : a₁.shape = o₁ ++ [n]) (h₂ : a₂.shape = o₂ ++ [n, m]) :
+    ∃ c, matrixProduct a₁ a₂ 1 2 .pairwise = .ok c ∧ c.shape = o₁ ++ o₂ ++ [m] ∧
+      ∀ i j, Valid o₁ i → Valid o₂ j →
+        rowAt c m (i ++ j) = Matrix.vecMul (rowAt a₁ n i) (matAt a₂ n m j) := by
+  obtain ⟨c, hc, hs, hg⟩ := matrixProduct_units_12 .pairwise a₁ a₂ h₁ h₂ rfl
+  refine ⟨c, hc, hs, fun i j hi hj => ?_⟩
+  rw [hg _ (hi.append hj), (unitIx_pairwise hi).1, (unitIx_pairwise hi).2]
+
+theorem matrixProduct_pairwise_22 (a₁ a₂ : ND K) {o₁ o₂ : List ℕ} {p n m : ℕ}
+    (h₁ : a₁.shape = o₁ ++ [p, n]) (h₂ : a₂.shape = o₂ ++ [n, m]) :
+    ∃ c, matrixProduct a₁ a₂ 2 2 .pairwise = .ok c ∧ c.shape = o₁ ++ o₂ ++ [p, m] ∧
+      ∀ i j, Valid o₁ i → Valid o₂ j → matAt c p m (i ++ j) = matAt a₁ p n i * matAt a₂ n m j := by
+  obtain ⟨c, hc, hs, hg⟩ := matrixProduct_units_22 .pairwise a₁ a₂ h₁ h₂ rfl
+  refine ⟨c, hc, hs, fun i j hi hj => ?_⟩
+  rw [hg _ (hi.append hj), (unitIx_pairwise hi).1, (unitIx_pairwise hi).2]
+
+theorem matrixProduct_pairwise_32 (a₁ a₂ : ND K) {o₁ o₂ : List ℕ} {k p n m : ℕ}
+    (h₁ : a₁.shape = o₁ ++ [k, p, n]) (h₂ : a₂.shape = o₂ ++ [n, m]) :
+    ∃ c, matrixProduct a₁ a₂ 3 2 .pairwise = .ok c ∧ c.shape = o₁ ++ o₂ ++ [k, p, m] ∧
+      ∀ i j, Valid o₁ i → Valid o₂ j → ∀ v,
+        stackAt c k p m (i ++ j) v = stackAt a₁ k p n i v * matAt a₂ n m j := by
+  obtain ⟨c, hc, hs, hg⟩ := matrixProduct_units_32 .pairwise a₁ a₂ h₁ h₂ rfl
+  refine ⟨c, hc, hs, fun i j hi hj v => ?_⟩
+  rw [hg _ (hi.append hj), (unitIx_pairwise hi).1, (unitIx_pairwise hi).2]
+
+/-- **pairwise_reversed**: transformation's axes first; entry `[j][i]` is transformation `j`
+applied to unit `i` -/
+theorem matrixProduct_pairwise_reversed_12 (a₁ a₂ : ND K) {o₁ o₂ : List ℕ} {n m : ℕ}
+    (h₁ : a₁.shape = o₁ ++ [n]) (h₂ : a₂.shape = o₂ ++ [n, m]) :
+    ∃ c, matrixProduct a₁ a₂ 1 2 .pairwiseReversed = .ok c ∧ c.shape = o₂ ++ o₁ ++ [m] ∧
+      ∀ i j, Valid o₁ i → Valid o₂ j →
+        rowAt c m (j ++ i) = Matrix.vecMul (rowAt a₁ n i) (matAt a₂ n m j) := by
+  obtain ⟨c, hc, hs, hg⟩ := matrixProduct_units_12 .pairwiseReversed a₁ a₂ h₁ h₂ rfl
+  refine ⟨c, hc, hs, fun i j hi hj => ?_⟩
+  rw [hg _ (hj.append hi), (unitIx_pairwiseReversed hj).1, (unitIx_pairwiseReversed hj).2]
+
+theorem matrixProduct_pairwise_reversed_22 (a₁ a₂ : ND K) {o₁ o₂ : List ℕ} {p n m : ℕ}
+    (h₁ : a₁.shape = o₁ ++ [p, n]) (h₂ : a₂.shape = o₂ ++ [n, m]) :
+    ∃ c, matrixProduct a₁ a₂ 2 2 .pairwiseReversed = .ok c ∧ c.shape = o₂ ++ o₁ ++ [p, m] ∧
+      ∀ i j, Valid o₁ i → Valid o₂ j → matAt c p m (j ++ i) = matAt a₁ p n i * matAt a₂ n m j := by
+  obtain ⟨c, hc, hs, hg⟩ := matrixProduct_units_22 .pairwiseReversed a₁ a₂ h₁ h₂ rfl
+  refine ⟨c, hc, hs, fun i j hi hj => ?_⟩
+  rw [hg _ (hj.append hi), (unitIx_pairwiseReversed hj).1, (unitIx_pairwiseReversed hj).2]
+
+theorem matrixProduct_pairwise_reversed_32 (a₁ a₂ : ND K) {o₁ o₂ : List ℕ} {k p n m : ℕ}
+    (h₁ : a₁.shape = o₁ ++ [k, p, n]) (h₂ : a₂.shape = o₂ ++ [n, m]) :
+    ∃ c, matrixProduct a₁ a₂ 3 2 .pairwiseReversed = .ok c ∧ c.shape = o₂ ++ o₁ ++ [k, p, m] ∧
+      ∀ i j, Valid o₁ i → Valid o₂ j → ∀ v,
+        stackAt c k p m (j ++ i) v = stackAt a₁ k p n i v * matAt a₂ n m j := by
+  obtain ⟨c, hc, hs, hg⟩ := matrixProduct_units_32 .pairwiseReversed a₁ a₂ h₁ h₂ rfl
+  refine ⟨c, hc, hs, fun i j hi hj v => ?_⟩
+  rw [hg _ (hj.append hi), (unitIx_pairwiseReversed hj).1, (unitIx_pairwiseReversed hj).2]
+
+/-- **elementwise**: numpy broadcasting of the composite shapes; result unit `bix` is the
+product of the units at the broadcast positions of `bix` (axes of length 1 are read at 0,
+missing leading axes are ignored) -/
+theorem matrixProduct_elementwise_12 (a₁ a₂ : ND K) {o₁ o₂ O : List ℕ} {n m : ℕ}
+    (h₁ : a₁.shape = o₁ ++ [n]) (h₂ : a₂.shape = o₂ ++ [n, m]) (hO : bcastShape o₁ o₂ = some O) :
+    ∃ c, matrixProduct a₁ a₂ 1 2 .elementwise = .ok c ∧ c.shape = O ++ [m] ∧
+      ∀ bix, Valid O bix → Valid o₁ (bcIx o₁ bix) ∧ Valid o₂ (bcIx o₂ bix) ∧
+        rowAt c m bix = Matrix.vecMul (rowAt a₁ n (bcIx o₁ bix)) (matAt a₂ n m (bcIx o₂ bix)) := by
+  obtain ⟨c, hc, hs, hg⟩ := matrixProduct_units_12 .elementwise a₁ a₂ h₁ h₂ hO
+  exact ⟨c, hc, hs, fun bix hv => ⟨valid_bcIx_left hO hv, valid_bcIx_right hO hv, hg bix hv⟩⟩
+
+theorem matrixProduct_elementwise_22 (a₁ a₂ : ND K) {o₁ o₂ O : List ℕ} {p n m : ℕ}
+    (h₁ : a₁.shape = o₁ ++ [p, n]) (h₂ : a₂.shape = o₂ ++ [n, m]) (hO : bcastShape o₁ o₂ = some O) :
+    ∃ c, matrixProduct a₁ a₂ 2 2 .elementwise = .ok c ∧ c.shape = O ++ [p, m] ∧
+      ∀ bix, Valid O bix → Valid o₁ (bcIx o₁ bix) ∧ Valid o₂ (bcIx o₂ bix) ∧
+        matAt c p m bix = matAt a₁ p n (bcIx o₁ bix) * matAt a₂ n m (bcIx o₂ bix) := by
+  obtain ⟨c, hc, hs, hg⟩ := matrixProduct_units_22 .elementwise a₁ a₂ h₁ h₂ hO
+  exact ⟨c, hc, hs, fun bix hv => ⟨valid_bcIx_left hO hv, valid_bcIx_right hO hv, hg bix hv⟩⟩
+
+theorem matrixProduct_elementwise_32 (a₁ a₂ : ND K) {o₁ o₂ O : List ℕ} {k p n m : ℕ}
+    (h₁ : a₁.shape = o₁ ++ [k, p, n]) (h₂ : a₂.shape = o₂ ++ [n, m]) (hO : bcastShape o₁ o₂ = some O) :
+    ∃ c, matrixProduct a₁ a₂ 3 2 .elementwise = .ok c ∧ c.shape = O ++ [k, p, m] ∧
+      ∀ bix, Valid O bix → Valid o₁ (bcIx o₁ bix) ∧ Valid o₂ (bcIx o₂ bix) ∧ ∀ v,
+        stackAt c k p m bix v = stackAt a₁ k p n (bcIx o₁ bix) v * matAt a₂ n m (bcIx o₂ bix) := by
+  obtain ⟨c, hc, hs, hg⟩ := matrixProduct_units_32 .elementwise a₁ a₂ h₁ h₂ hO
+  exact ⟨c, hc, hs, fun bix hv => ⟨valid_bcIx_left hO hv, valid_bcIx_right hO hv, hg bix hv⟩⟩
+
+/-- non-vacuity: a 2×3 composite of points in dimension 2 against 2 transformations, all
+three modes, evaluated by the kernel on the very definitions above -/
+example :
+    let a₁ : ND ℚ := ofFn [2, 3, 2] (fun ix => (ix.foldl (fun s x => 3 * s + x + 1) 0 : ℕ))
+    let a₂ : ND ℚ := ofFn [2, 2, 2] (fun ix => (ix.foldl (fun s x => 2 * s + x + 1) 0 : ℕ))
+    (matrixProduct a₁ a₂ 1 2 .pairwise).toOption.map (·.shape) = some [2, 3, 2, 2] ∧
+    (matrixProduct a₁ a₂ 1 2 .pairwiseReversed).toOption.map (·.shape) = some [2, 2, 3, 2] ∧
+    (matrixProduct (ofFn [3, 2] fun _ => (1 : ℚ)) a₂ 1 2 .elementwise).toOption.map (·.shape) = none ∧
+    (matrixProduct (ofFn [1, 2] fun _ => (1 : ℚ)) a₂ 1 2 .elementwise).toOption.map (·.shape)
+      = some [2, 2] := by
+  decide +kernel
+
+/-! ## structural operations preserve the units and their row-major order -/
+
+/-- `flatten_to_unit`: unit number `flatIx o i` of the flattened array is unit `i` -/
+theorem flatten_units (a : ND K) {o u i x : List ℕ} (hs : a.shape = o ++ u)
+    (hi : Valid o i) (hx : Valid u x) :
+    (a.flattenOuter u.length).shape = sz o :: u ∧
+    (a.flattenOuter u.length).get (flatIx o i :: x) = a.get (i ++ x) :=
+  ⟨shape_flattenOuter a hs, get_flattenOuter a hs hi hx⟩
+
+/-- … and every unit of the flattened array is one of the original units, in row-major order -/
+theorem flatten_units_onto (a : ND K) {o u x : List ℕ} {k : ℕ} (hs : a.shape = o ++ u)
+    (hk : k < sz o) (hx : Valid u x) :
+    Valid o (unravel o k) ∧ (a.flattenOuter u.length).get (k :: x) = a.get (unravel o k ++ x) := by
+  refine ⟨valid_unravel hk, ?_⟩
+  have := get_flattenOuter a hs (valid_unravel hk) hx
+  rwa [flatIx_unravel hk] at this
+
+/-- `reshape` of the composite shape: succeeds iff the sizes agree, and unit `i'` of the
+result is the unit with the same row-major position in the argument -/
+theorem reshape_units (a : ND K) {o o' u i' x : List ℕ} (hs : a.shape = o ++ u)
+    (hsz : sz o' = sz o) (hi' : Valid o' i') (hx : Valid u x) :
+    ∃ r, a.reshape (o' ++ u) = .ok r ∧ r.shape = o' ++ u ∧
+      Valid o (unravel o (flatIx o' i')) ∧
+      r.get (i' ++ x) = a.get (unravel o (flatIx o' i') ++ x) := by
+  have hk : flatIx o' i' < sz o := hsz ▸ flatIx_lt hi'
+  refine ⟨⟨o' ++ u, a.data⟩, reshape_ok a (by rw [hs, sz_append, sz_append, hsz]), rfl,
+    valid_unravel hk, ?_⟩
+  exact get_reshape_outer a hs (valid_unravel hk).length hi'.length hx (flatIx_unravel hk).symm
+
+theorem reshape_refuses (a : ND K) {s : List ℕ} (h : sz s ≠ sz a.shape) :
+    a.reshape s = .error "ValueError" := by simp [reshape, h]
+
+/-- row-major order made concrete: in a 2×3 composite, unit `[1,2]` is unit number 5 of the
+flattened object and vice versa (hypotheses of the structural theorems are satisfiable) -/
+example : Valid [2, 3] [1, 2] ∧ flatIx [2, 3] [1, 2] = 5 ∧ unravel [2, 3] 5 = [1, 2] ∧ sz [2, 3] = sz [6] := by
+  decide
+
+/-- `obj[k]` / `obj[k₀, k₁, …]`: the units of the indexed object are the units behind the index -/
+theorem getItem_units (a : ND K) {s t idx x : List ℕ} (hs : a.shape = s ++ t)
+    (hidx : idx.length = s.length) (hx : Valid t x) :
+    (a.sub idx).shape = t ∧ (a.sub idx).get x = a.get (idx ++ x) :=
+  ⟨shape_sub a hs hidx, get_sub a hs hidx hx⟩
+
+/-- iteration (`for u in obj`, python's `__getitem__`/`__len__` protocol): the `k`-th item is
+`obj[k]`, in order -/
+theorem iter_units (a : ND K) {d : ℕ} {t x : List ℕ} (hs : a.shape = d :: t) {k : ℕ} (hk : k < d)
+    (hx : Valid t x) :
+    (iterItems a).length = d ∧ ((iterItems a)[k]?.map fun b => b.get x) = some (a.get (k :: x)) := by
+  have h := get_sub a (s := [d]) (t := t) (i := [k]) (by simpa using hs) rfl hx
+  simp [iterItems, hs, hk, h]
+
+/-- `a[idx] = v`: exactly the units behind `idx` change, to `v`'s -/
+theorem setItem_units (a v : ND K) {idx ix : List ℕ} (h : Valid a.shape ix) :
+    (a.setSub idx v).shape = a.shape ∧
+    (a.setSub idx v).get ix =
+      if ix.take idx.length = idx then v.get (ix.drop idx.length) else a.get ix :=
+  ⟨rfl, get_setSub a v h⟩
+
+/-- stacking objects (`Cls([obj₀, obj₁, …])` → `np.array([objₖ.proj_data …])`): unit `x` of item
+`k` becomes unit `k :: x`, in order -/
+theorem stack_units (a : ND K) (rest : List (ND K)) (h : ∀ b ∈ rest, b.shape = a.shape) :
+    ∃ c, ND.stack (a :: rest) 0 = .ok c ∧ c.shape = (rest.length + 1) :: a.shape ∧
+      ∀ k x, k < rest.length + 1 → Valid a.shape x →
+        c.get (k :: x) = ((a :: rest).getD k a).get x :=
+  stack0_spec a rest h
+
+/-- `combine` (repaired): the flattened items are concatenated along the unit-list axis, item
+after item, units in order -/
+theorem concat_units (a : ND K) (rest : List (ND K)) {t : List ℕ}
+    (h : ∀ b ∈ a :: rest, ∃ d, b.shape = d :: t) :
+    ∃ c, ND.concat (a :: rest) 0 = .ok c ∧
+      c.shape = (((a :: rest).map fun b => b.shape.headD 0).sum) :: t ∧
+      ∀ k i x, k < rest.length + 1 → i < ((a :: rest).getD k a).shape.headD 0 → Valid t x →
+        c.get ((offset ((a :: rest).map fun b => b.shape.headD 0) k + i) :: x) =
+          ((a :: rest).getD k a).get (i :: x) :=
+  concat0_spec a rest h
+
+example : (ND.stack [ofFn [2] (fun ix => (ix.headD 0 : ℚ)), ofFn [2] (fun ix => (ix.headD 0 + 5 : ℚ))] 0).toOption.map
+    (fun c => (c.shape, c.data.toList)) = some ([2, 2], [0, 1, 5, 6]) := by decide +kernel
+
+/-! ## lifting of the vectorised last-axis formulas: unit `i` of `f_vec a` is `f_unit` of unit `i`
+of `a`, for every composite rank.  The `ND` models (`GT.Model.Obj.applyBilinear`,
+`GT.Model.Vectorised`) are written with the source's own numpy idioms and are compared with the
+numpy code on every run (`apply_bilinear_corr`, `vectorised_corr`).
+
+Lifted here: `apply_bilinear` / `normsq` (with and without form, broadcasting outer shapes), the
+`(x.T * f.T).T` idiom, `poincare_to_kleinian`, `kleinian_to_poincare`, in-place `normalize`, the
+argument of `arccosh` in `Point.distance`.  NOT lifted by a theorem (stretch; covered by the
+per-unit oracle `points_per_unit` / `vectorised_per_unit` only): `poincare_to_halfspace`,
+`halfspace_to_poincare`, `affine_coords`, `Segment._compute_aux_data`'s `[..., np.newaxis]`
+broadcasting, `origin_to`, circle parameters, fixed points, `sl2_irrep` on arrays. -/
+
+/-- `apply_bilinear(v1, v2, F)[bix] = x F yᵀ` for the units paired by numpy broadcasting -/
+theorem applyBilinear_units (v₁ v₂ F : ND K) {o₁ o₂ O : List ℕ} {n : ℕ}
+    (h₁ : v₁.shape = o₁ ++ [n]) (h₂ : v₂.shape = o₂ ++ [n]) (hF : F.shape = [n, n])
+    (hO : bcastShape o₁ o₂ = some O) :
+    ∃ c, applyBilinear v₁ v₂ (some F) = .ok c ∧ c.shape = O ∧
+      ∀ bix, Valid O bix →
+        scalarAt c bix = bil (matAt F n n []) (rowAt v₁ n (bcIx o₁ bix)) (rowAt v₂ n (bcIx o₂ bix)) :=
+  applyBilinear_form_units v₁ v₂ F h₁ h₂ hF hO
+
+/-- `apply_bilinear(v1, v2)[bix] = x · y` (Euclidean), in particular `normsq` -/
+theorem applyBilinear_none_units (v₁ v₂ : ND K) {o₁ o₂ O : List ℕ} {n : ℕ}
+    (h₁ : v₁.shape = o₁ ++ [n]) (h₂ : v₂.shape = o₂ ++ [n]) (hO : bcastShape o₁ o₂ = some O) :
+    ∃ c, applyBilinear v₁ v₂ none = .ok c ∧ c.shape = O ∧
+      ∀ bix, Valid O bix → scalarAt c bix = dot (rowAt v₁ n (bcIx o₁ bix)) (rowAt v₂ n (bcIx o₂ bix)) := by
+  obtain ⟨c, hc, hs, _, hg⟩ := applyBilinear_none_spec v₁ v₂ h₁ h₂ hO
+  refine ⟨c, hc, hs, fun bix hv => ?_⟩
+  rw [scalarAt, hg bix hv]
+  simp [dot, rowAt]
+
+/-- the `(x.T * f.T).T` idiom scales unit `i` by scalar `i` (a single unit: by the one scalar
+that `atleast_1d` wrapped) -/
+theorem scaleLast_units (x f : ND K) {o : List ℕ} {n : ℕ} (hx : x.shape = o ++ [n])
+    (hf : f.shape = if o = [] then [1] else o) :
+    ∃ c, scaleLast x f = .ok c ∧ c.shape = x.shape ∧
+      ∀ i, Valid o i → rowAt c n i = f.get (if o = [] then [0] else i) • rowAt x n i := by
+  obtain ⟨c, hc, hs, hg⟩ := scaleLast_spec x f hx hf
+  refine ⟨c, hc, by rw [hs, hx], fun i hi => ?_⟩
+  funext cc
+  simp only [rowAt, Pi.smul_apply, smul_eq_mul]
+  rw [hg i cc.1 hi cc.2, mul_comm]
+
+/-- `poincare_to_kleinian` on a composite = `p2k` on every unit (C01's chart map) -/
+theorem p2k_units (x : ND K) {o : List ℕ} {n : ℕ} (hx : x.shape = o ++ [n]) :
+    ∃ c, p2kND x = .ok c ∧ c.shape = x.shape ∧ ∀ i, Valid o i → rowAt c n i = p2k (rowAt x n i) :=
+  p2kND_units x hx
+
+/-- `kleinian_to_poincare` on a composite = `k2p` on every unit -/
+theorem k2p_units [LinearOrder K] (r : K → K) (x : ND K) {o : List ℕ} {n : ℕ} (hx : x.shape = o ++ [n]) :
+    ∃ c, k2pND (fun a => r |a|) x = .ok c ∧ c.shape = x.shape ∧
+      ∀ i, Valid o i → rowAt c n i = k2p r (rowAt x n i) :=
+  k2pND_units r x hx
+
+/-- in-place `utils.normalize` on a composite = `normalize` on every unit (null rows untouched) -/
+theorem normalize_units [DecidableEq K] (rabs : K → K) (v F : ND K) {o : List ℕ} {n : ℕ}
+    (hv : v.shape = o ++ [n]) (hF : F.shape = [n, n]) :
+    ∃ c, normalizeLit rabs v F = .ok c ∧ c.shape = v.shape ∧
+      ∀ i, Valid o i → rowAt c n i = normalizeRowF rabs (matAt F n n []) (rowAt v n i) :=
+  normalizeLit_units rabs v F hv hF
+
+/-- the argument of `arccosh` in `Point.distance(self, other)` before `abs`/`max(·,1)` (entrywise
+ufuncs): `⟨x̂, ŷ⟩` for the units paired by broadcasting -/
+theorem distance_units [DecidableEq K] (rabs : K → K) (x y J : ND K) {o₁ o₂ O : List ℕ} {n : ℕ}
+    (hx : x.shape = o₁ ++ [n]) (hy : y.shape = o₂ ++ [n]) (hJ : J.shape = [n, n])
+    (hO : bcastShape o₁ o₂ = some O) :
+    ∃ nx ny c, normalizeLit rabs x J = .ok nx ∧ normalizeLit rabs y J = .ok ny ∧
+      applyBilinear nx ny (some J) = .ok c ∧ c.shape = O ∧
+      ∀ bix, Valid O bix →
+        scalarAt c bix = bil (matAt J n n [])
+          (normalizeRowF rabs (matAt J n n []) (rowAt x n (bcIx o₁ bix)))
+          (normalizeRowF rabs (matAt J n n []) (rowAt y n (bcIx o₂ bix))) := by
+  obtain ⟨nx, hnx, hnxs, hnxg⟩ := normalizeLit_units rabs x J hx hJ
+  obtain ⟨ny, hny, hnys, hnyg⟩ := normalizeLit_units rabs y J hy hJ
+  obtain ⟨c, hc, hcs, hcg⟩ := applyBilinear_form_units nx ny J (by rw [hnxs, hx]) (by rw [hnys, hy]) hJ hO
+  refine ⟨nx, ny, c, hnx, hny, hc, hcs, fun bix hv => ?_⟩
+  rw [hcg bix hv, hnxg _ (valid_bcIx_left hO hv), hnyg _ (valid_bcIx_right hO hv)]
+
+/-- the hypotheses of the lifting theorems are shape equations, met e.g. by a 3×2 composite of
+points of the plane -/
+example : ∃ c, p2kND (ofFn [3, 2, 2] fun _ => (1 / 2 : ℚ)) = .ok c ∧ c.shape = [3, 2, 2] := by
+  obtain ⟨c, hc, hs, _⟩ := p2k_units (ofFn [3, 2, 2] fun _ => (1 / 2 : ℚ)) (o := [3, 2]) (n := 2) rfl
+  exact ⟨c, hc, hs⟩
+
+end GT.C04
